@@ -2,7 +2,8 @@ import GscribModel.Model.Proto
 import GscribModel.Drv.Transform
 import GscribModel.Gen.XformSrc
 /-! Driver mode `xform` (stateful; the line `reset` starts again): executes the *generated* translation of
-    `gscrib/geometry/transform.py` / `transformer.py`, so that the translator can be compared with the real classes.
+    `gscrib/geometry/transform.py` / `transformer.py` and of the transform context managers of `gscrib/gcode_core.py`, so that
+    the translator can be compared with the real classes.
 
 Lines (rationals `n/d`, `-` = None, `;` separates numbers, names are `h<hex of the UTF-8 bytes>`):
 
@@ -14,6 +15,11 @@ Lines (rationals `n/d`, `-` = None, `;` separates numbers, names are `h<hex of t
     copy                                  `_copy_state()`, kept by the driver on a list of frames
     revert                                `_revert_state(frame)` with the frame kept last (and drops it)
     tnew <16 rationals | other> 1;2;3     `Transform(matrix, pivot)` on its own: the value is the object
+    enter | enter h61                     `GCodeCore.current_transform_enter` / `named_transform_enter name`: `__enter__` of
+                                          `with g.current_transform():` / `with g.named_transform(name):`; what it saved is
+                                          kept by the driver on a list of open blocks (nothing is kept if it raised)
+    leave                                 `…_exit` of the innermost open block (its `finally`; the same whether the body
+                                          returned or raised) and drops it; outcome `no-open-block` if there is none
 
 Record: `outcome | value | cur=<obj> | stack=<obj>,… | named=h61:<obj>,…` with `<obj>` = `matrix_inverse_pivot_from-pivot_to-pivot`,
 a matrix being its 16 entries. -/
@@ -43,6 +49,8 @@ def showErr : Option Err → String
 structure St where
   ct : CoordinateTransformer
   frames : List (Gen.XformSrc.Transform × List Gen.XformSrc.Transform)
+  /-- the open `with` blocks, innermost first: the name (`none`: `current_transform`) and the generator's saved local -/
+  ctx : List (Option String × (Gen.XformSrc.Transform × List Gen.XformSrc.Transform)) := []
 
 def fresh : CoordinateTransformer := (CoordinateTransformer.__init__ default).1
 
@@ -90,13 +98,32 @@ def step (s : St) (line : String) : St × String :=
       | [] => bad
       | f :: rest =>
         let r := CoordinateTransformer._revert_state s.ct f
-        ({ ct := r.1, frames := rest }, record (showErr r.2) "-" r.1)
+        ({ s with ct := r.1, frames := rest }, record (showErr r.2) "-" r.1)
   | ["tnew", m, p] => match parseArr m, parsePt p with
       | some m, some p =>
         let r := Gen.XformSrc.Transform.__init__ default m p
         (s, record (showErr r.2) (match r.2 with | none => showObj r.1 | some _ => "-") s.ct)
       | _, _ => bad
+  | ["enter"] =>
+      let r := GCodeCore.current_transform_enter s.ct
+      match r.2 with
+      | .ok st => ({ s with ct := r.1, ctx := (none, st) :: s.ctx }, record "ok" "-" r.1)
+      | .error e => ({ s with ct := r.1 }, record e.name "-" r.1)
+  | ["enter", n] => match parseName n with
+      | some n =>
+        let r := GCodeCore.named_transform_enter s.ct n
+        match r.2 with
+        | .ok st => ({ s with ct := r.1, ctx := (some n, st) :: s.ctx }, record "ok" "-" r.1)
+        | .error e => ({ s with ct := r.1 }, record e.name "-" r.1)
+      | none => bad
+  | ["leave"] => match s.ctx with
+      | [] => (s, record "no-open-block" "-" s.ct)
+      | (n, st) :: rest =>
+        let r := match n with
+          | none => GCodeCore.current_transform_exit s.ct st
+          | some n => GCodeCore.named_transform_exit s.ct n st
+        ({ s with ct := r.1, ctx := rest }, record (showErr r.2) "-" r.1)
   | _ => bad
 
-def main : IO Unit := Proto.loopState (⟨fresh, []⟩ : St) step
+def main : IO Unit := Proto.loopState ({ ct := fresh, frames := [] } : St) step
 end GscribModel.XformSrcDrv
